@@ -92,7 +92,8 @@ CLAIMS = {
             "receiver model theorems by induction over the message stream, handler case analysis; whole-system invariant layers + totality of the scheduler functions under them (Lean 4) ; differential correspondence of the real process_from_remote; whole-system simulation with deaths at every lifecycle point and undecodable messages"),
     "C04": ("Lean theorems: per worker the receiver posts the worker's events exactly once in the order sent; a test report is published tagged with its worker and counted once; "
             "for any sequence of collection reports from any workers the published ones are the distinct texts in first-occurrence order, each counted once; WHOLE SYSTEM, every scheduler "
-            "(C04_sys_collection_errors_published_once): after any execution of the composed system - reports interleaved with tests, crashes, replacements reporting the same error again - the published collection reports are pairwise distinct. Partial: field fidelity of "
+            "(C04_sys_reports_once_in_order_all_modes): between any two states of any execution, for every worker not written off, the sequence (its reports published ++ queued ++ on the channel) only grows at its end - "
+            "no report is lost, duplicated, overtaken or invented on its way; (C04_sys_collection_errors_published_once): after any execution of the composed system - reports interleaved with tests, crashes, replacements reporting the same error again - the published collection reports are pairwise distinct. Partial: field fidelity of "
             "reports and the tally equality with a single-process run are validated on real runs",
             "induction over message / report sequences (Lean 4) ; differential correspondence of the receiver and of DSession; end-to-end runs compared with -n0 (tallies, ids, fields, exit status, per-worker order)"),
     "C02": ("Lean theorems for the two mechanisms: every check_schedule decision of the load scheduler for a live node leaves it with at least two queued tests, the shutdown signal or an "
